@@ -12,6 +12,7 @@ verus! {
 pub mod jt {
 use vstd::prelude::*;
 use std::rc::Rc;
+use vstd::std_specs::iter::IteratorSpec;
 //@@ include prelude/indexmap.rs
 //@@ include prelude/json_types.rs
 //@@ include prelude/clone_specs.rs
@@ -163,7 +164,6 @@ impl Context {
 //@@ header-from specs/ctx/build.spec
 //@@ loop 1 iter it
         invariant
-            mp.distinct(),
             0 <= it.index@ <= self.results@.len(), it.seq().len() == self.results@.len(),
             forall|j: int| 0 <= j < it.seq().len() ==> *(#[trigger] it.seq()[j]) == self.results@[j],
             mp.entries() == build_entries(self.res().subrange(0, it.index@)),
